@@ -21,7 +21,7 @@ from pywbem import (CIMInstanceName, CIMInstance, CIMClass, CIMProperty,
                     CIMQualifier, CIMQualifierDeclaration, CIMError, Uint32,
                     CIM_ERR_INVALID_ENUMERATION_CONTEXT)
 
-from .runner import Sub
+from .runner import Sub, HarnessError, exc_detail, _pkg_dirs
 from . import strategies as S
 from .normalize import canon, Opts
 
@@ -29,8 +29,9 @@ PROPERTY = 'C14'
 RULE = (
     "A history = repository recipe (C14_Base <- C14_Mid <- C14_Leaf forest, "
     "C14_Other, association C14_Link with a hub instance on each side, "
-    "optional C14_Big with 100/101/230 instances, class C14_X in a second, "
-    "removable namespace; every instance count drawn from 0..25) + up to N "
+    "optional C14_Big with 100/101/230 instances in namespace root/big, "
+    "class C14_X in a removable namespace root/extra; every other instance "
+    "count drawn from 0..25) + up to N "
     "steps.  Steps: open (7 Open operations; targets = every class / hub "
     "and ordinary instances / a non-existing one; DeepInheritance, "
     "IncludeClassOrigin, PropertyList, Role/ResultClass filters, "
@@ -79,12 +80,54 @@ ASSUMPTIONS = [
     "Mock(return_value=...); without it OpenQueryInstances can never open "
     "a session",
     "the server's context table is read through "
-    "conn._mainprovider.enumeration_contexts (keys only)",
+    "conn._mainprovider.enumeration_contexts (its keys; the length of "
+    "'data' only to name the cause when a refused pull consumed objects)",
+    "C14_Big lives in its own namespace root/big (the mock copies the "
+    "whole instance store of a namespace on every enumeration); a "
+    "traditional result is reused for an identical later Open call as long "
+    "as no step changed the repository",
 ]
-SENSITIVITY = []
+SENSITIVITY = [
+    "_pull_response: rtn_objs_list = objs_list[0:max_obj_cnt + 1] -> "
+    "pull:more-objects-than-MaxObjectCount, object-delivered-twice",
+    "_pull_response: context not deleted on eos -> "
+    "leak:context-left-on-server-after:eos",
+    "_pull_response: wrong pull type deletes an object before raising -> "
+    "wrong-kind-pull:refused-but-consumed-objects",
+    "CloseEnumeration not deleting the context -> "
+    "leak:context-left-on-server-after:closed",
+    "_pull_response: del objs_list[0:max_obj_cnt + 1] (one object lost per "
+    "pull) -> eos-while-objects-remain",
+    "_open_response: first batch not removed from the stored list -> "
+    "object-delivered-twice",
+    "_open_response: 'if not max_obj_cnt' (MaxObjectCount=0 treated as "
+    "default) -> open:MaxObjectCount=0-delivers-objects",
+    "_pull_response: pull type check disabled -> wrong-kind-pull:accepted",
+    "_create_contextid returning a constant (sessions share one context) -> "
+    "delivered-object-not-in-traditional-result, "
+    "close:refused-on-open-session:CIM_ERR_INVALID_ENUMERATION_CONTEXT",
+    "client _get_rslt_params returning the context also with eos -> "
+    "open:context-returned-with-eos, pull:context-returned-with-eos",
+    "_pull_response: eos one object early (len <= max+1, slice to max) -> "
+    "eos-while-objects-remain",
+    "_pull_response: slice/del [0:max_obj_cnt - 1] -> "
+    "pull:no-object-and-no-eos-for-positive-MaxObjectCount, "
+    "drain:session-does-not-terminate",
+    "(unchanged tree) _pull_response 'if not max_obj_cnt' -> "
+    "pull:MaxObjectCount=0-delivers-objects; OpenQueryInstances registering "
+    "'PullInstancesWithPath' -> query-session:server-refuses-PullInstances-"
+    "and-accepts-PullInstancesWithPath; '{0!A }' in _validate_open_params "
+    "-> open:leak:ValueError@_mainprovider:_validate_open_params:...",
+    "NOT caught, by design: _open_response '<' instead of '<=' only delays "
+    "eos to a final empty pull, which the statement allows",
+]
 
 NS = 'root/cimv2'
 NSX = 'root/extra'
+# C14_Big has its own namespace: the mock copies the whole instance store of
+# a namespace on every enumeration
+NSB = 'root/big'
+NS_OF = {'C14_X': NSX, 'C14_Big': NSB}
 OPTS = Opts(host=False)
 IEC = CIM_ERR_INVALID_ENUMERATION_CONTEXT
 QUERY_KIND_SIG = ('query-session:server-refuses-PullInstances-and-accepts-'
@@ -164,7 +207,7 @@ def _classes():
     big = CIMClass('C14_Big', properties=[
         CIMProperty('Id', None, type='uint32', qualifiers=_key()),
         CIMProperty('Txt', None, type='string')])
-    return [base, mid, leaf, other, link, big]
+    return [base, mid, leaf, other, link], big
 
 
 def _xclass():
@@ -194,8 +237,12 @@ def build_repo(init, stub_query=False):
     """
     conn = pywbem_mock.FakedWBEMConnection(default_namespace=NS)
     conn.add_cimobjects(_qualdecls(), namespace=NS)
-    for c in _classes():
+    classes, big = _classes()
+    for c in classes:
         conn.CreateClass(c, namespace=NS)
+    conn.add_namespace(NSB)
+    conn.add_cimobjects(_qualdecls(assoc=False), namespace=NSB)
+    conn.CreateClass(big, namespace=NSB)
     conn.add_namespace(NSX)
     conn.add_cimobjects(_qualdecls(assoc=False), namespace=NSX)
     conn.CreateClass(_xclass(), namespace=NSX)
@@ -220,7 +267,8 @@ def build_repo(init, stub_query=False):
     for i in range(init['nbig']):
         paths['C14_Big'].append(conn.CreateInstance(CIMInstance(
             'C14_Big', properties=[CIMProperty('Id', Uint32(i)),
-                                   CIMProperty('Txt', 't%d' % i)])))
+                                   CIMProperty('Txt', 't%d' % i)]),
+            namespace=NSB))
     for i in range(init['nx']):
         paths['C14_X'].append(conn.CreateInstance(CIMInstance(
             'C14_X', properties=[CIMProperty('Id', Uint32(i)),
@@ -274,7 +322,11 @@ def install_query_stub(conn):
 # ---------------------------------------------------------------------------
 # generators (plain data)
 
-_SIZE = st.one_of(st.integers(0, 25), st.integers(0, 8), st.integers(0, 4))
+# Hypothesis favours the ends of an integer range; rotate them away from 0 so
+# that empty result sets stay the exception (they are also reached through
+# filters, empty classes and non-existing targets)
+_SIZE = st.one_of(st.integers(0, 25).map(lambda v: (v + 7) % 26),
+                  st.integers(0, 8).map(lambda v: (v + 3) % 9))
 
 
 def g_init(draw, stub_query=False):
@@ -289,37 +341,42 @@ def g_init(draw, stub_query=False):
             'stub_query': stub_query}
 
 
-_MOC_OPEN = [None, 0, 0, 0, 1, 1, 1, 2, 2, 3, 5, 7, 10, ('size', -1),
+_MOC_OPEN = [None, 0, 0, 0, 0, 1, 1, 1, 2, 2, 3, 5, 7, ('size', -1),
              ('size', 0), ('size', 1), 100, 2 ** 32 - 1]
-_MOC_PULL = [0, 0, 0, 1, 1, 1, 2, 2, 3, 5, 7, 10, ('rem', -1), ('rem', 0),
-             ('rem', 1), 99, 100, 101, 1000, 2 ** 32 - 1]
+_MOC_PULL = [0, 0, 0, 1, 1, 1, 1, 2, 2, 2, 3, 3, 5, 7, ('rem', -1),
+             ('rem', 0), ('rem', 1), 100, 2 ** 32 - 1]
 _PLISTS = [None, None, None, [], ['Name'], ['name', 'M'], 'Name',
            ['K', 'Note'], ['Nope']]
 _TRI = [None, None, True, False]
 
 
 def g_open(draw, m):
-    which = OPENS[draw(st.sampled_from([0, 0, 1, 1, 2, 3, 4, 5, 6] +
-                                       ([6, 6, 6] if m.stub_query else [])))]
+    which = OPENS[draw(st.sampled_from(
+        [6] if m.stub_query and draw(S._I10) < 4 else
+        [0, 0, 0, 0, 1, 1, 1, 1, 2, 2, 2, 3, 3, 3, 4, 4, 4, 5, 5, 5, 6]))]
     a = {}
     if which.startswith('OpenEnumerate'):
         k = draw(S._I100)
         if m.nbig and k < 25:
             cn = 'C14_Big'
-        elif k < 35:
+        elif k < 40:
             cn = 'C14_Base'
-        elif k < 90:
+        elif k < 52:
+            cn = 'C14_Other'
+        elif k < 60:
+            cn = 'C14_Link'
+        elif k < 78:
             cn = CLASSNAMES[k % 6]
-        elif k < 93:
+        elif k < 81:
             cn = 'c14_BASE'
-        elif k < 97:
+        elif k < 98 and not m.nsx_removed:
             cn = 'C14_X'
         else:
             cn = 'C14_Nope'
         a['ClassName'] = cn
-        a['namespace'] = NSX if cn == 'C14_X' else \
+        a['namespace'] = NS_OF[cn] if cn in NS_OF else \
             draw(st.sampled_from([None, NS]))
-        if draw(S._I100) == 0:
+        if draw(S._I100) == 57:
             a['namespace'] = 'root/nope'
     elif which == 'OpenQueryInstances':
         cn = draw(st.sampled_from(['C14_Base', 'C14_Base', 'C14_Other',
@@ -327,37 +384,43 @@ def g_open(draw, m):
         a['FilterQueryLanguage'] = draw(st.sampled_from(
             ['DMTF:FQL', 'DMTF:FQL', 'DMTF:FQL', 'WQL', 'DMTF:CQL']))
         a['FilterQuery'] = 'SELECT * FROM ' + cn
-        a['namespace'] = NSX if cn == 'C14_X' else \
+        a['namespace'] = NS_OF[cn] if cn in NS_OF else \
             draw(st.sampled_from([None, NS]))
         a['ReturnQueryResultClass'] = draw(st.sampled_from(_TRI))
     else:
         k = draw(S._I100)
-        if k < 35:
+        if k < 42:
             tgt = ('src', 0)                    # hub on the Base side
-        elif k < 65:
-            tgt = ('C14_Other', 0)              # hub on the Other side
         elif k < 80:
+            tgt = ('C14_Other', 0)              # hub on the Other side
+        elif k < 88:
             tgt = ('src', draw(S._I100))
-        elif k < 93:
+        elif k < 96:
             tgt = ('C14_Other', draw(S._I100))
         else:
             tgt = ('none', 0)
         a['InstanceName'] = tgt
+        # filters (they mostly make the result small or empty)
+        filt = 40 <= draw(S._I100) < 55
         a['ResultClass'] = draw(st.sampled_from(
-            [None] * 8 + ['C14_Link', 'C14_Other', 'C14_Base', 'C14_Mid']))
-        a['Role'] = draw(st.sampled_from([None] * 8 + ['Src', 'Dst', 'src']))
+            [None, 'C14_Link', 'C14_Other', 'C14_Base', 'C14_Mid'])) \
+            if filt else None
+        a['Role'] = draw(st.sampled_from([None, None, 'Src', 'Dst', 'src'])) \
+            if filt else None
         if 'Associator' in which:
-            a['AssocClass'] = draw(st.sampled_from([None] * 4 +
-                                                   ['C14_Link']))
-            a['ResultRole'] = draw(st.sampled_from([None] * 8 +
-                                                   ['Src', 'Dst']))
+            a['AssocClass'] = draw(st.sampled_from([None, None, None,
+                                                    'C14_Link']))
+            a['ResultRole'] = draw(st.sampled_from(
+                [None, None, 'Src', 'Dst'])) if filt else None
     if which.endswith('Instances') and which != 'OpenQueryInstances':
         a['IncludeClassOrigin'] = draw(st.sampled_from(_TRI))
         a['PropertyList'] = draw(st.sampled_from(_PLISTS))
         if which == 'OpenEnumerateInstances':
             a['DeepInheritance'] = draw(st.sampled_from(_TRI))
     a['OperationTimeout'] = draw(st.sampled_from(
-        [None] * 25 + [0, 0, 0, 1, 1, 1, 30, 30, 30, 40, 40, 40, 41]))
+        [None, None, None, None, None, None, 0, 1, 30, 40]))
+    if draw(S._I100) == 57:
+        a['OperationTimeout'] = 41       # > OPEN_MAX_TIMEOUT: may be refused
     a['ContinueOnError'] = draw(st.sampled_from([None, None, False]))
     a['MaxObjectCount'] = draw(st.sampled_from(_MOC_OPEN))
     return {'op': 'open', 'which': which, 'args': a,
@@ -368,35 +431,60 @@ def g_step(draw, m):
     nopen = len(m.open_sessions())
     nall = len(m.sessions)
     k = draw(S._I100)
-    if nall == 0 or k < (45 if nopen == 0 else 25 if nopen == 1 else 12):
+    if nall == 0 or k < (75 if nopen == 0 else 18 if nopen == 1 else 8):
         return g_open(draw, m)
-    if k < 75:
+    r = draw(S._I100)
+    if r < 64:
         wrong = draw(S._I100)
         return {'op': 'pull', 's': draw(S._I100),
                 'pick': 'open' if draw(S._I10) < 9 else 'any',
                 'count': draw(st.sampled_from(_MOC_PULL)),
                 'wrong': 0 if wrong < 88 else 1 if wrong < 94 else 2,
                 'u32': draw(S._I10) < 2}
-    if k < 81:
+    if r < 70:
         return {'op': 'close', 's': draw(S._I100),
                 'pick': 'open' if draw(S._I10) < 7 else 'any'}
-    if k < 88:
+    if r < 77:
         return {'op': 'bogus',
                 'what': draw(st.sampled_from(['fabricated', 'empty',
                                               'foreign', 'foreign'])),
                 'action': draw(st.sampled_from(['insts', 'paths', 'query',
                                                 'close'])),
                 'count': draw(st.sampled_from([0, 1, 5, 1000]))}
-    if k < 97:
-        return {'op': 'mutate',
-                'what': draw(st.sampled_from(['delete', 'delete', 'create',
-                                              'modify'])),
-                'cls': draw(st.sampled_from(['C14_Base', 'C14_Base',
-                                             'C14_Other', 'C14_Mid',
-                                             'C14_Link', 'C14_Big',
-                                             'C14_X'])),
-                'i': draw(S._I100)}
-    return {'op': 'remove_ns'}
+    nsx_session = any(s.ns == NSX for s in m.open_sessions())
+    if not m.nsx_removed and r < (90 if nsx_session else 78):
+        return {'op': 'remove_ns'}
+    return {'op': 'mutate',
+            'what': draw(st.sampled_from(['delete', 'delete', 'create',
+                                          'modify'])),
+            'cls': draw(st.sampled_from(['C14_Base', 'C14_Base',
+                                         'C14_Other', 'C14_Mid',
+                                         'C14_Link', 'C14_Big',
+                                         'C14_X'])),
+            'i': draw(S._I100)}
+
+
+def _leak_signature(exc):
+    """
+    type + innermost pywbem frame that is not the generic message formatter
+    (pywbem/_utils.py), so that the signature names the operation code that
+    is at fault; no pywbem frame at all = harness error
+    """
+    import os
+    import re
+    import traceback
+    inner = None
+    for fr in traceback.extract_tb(exc.__traceback__):
+        fn = os.path.realpath(fr.filename)
+        if fn.startswith(_pkg_dirs()) and \
+                os.path.basename(fn) != '_utils.py':
+            inner = fr
+    if inner is None:
+        raise HarnessError('exception without pywbem frame: %r' %
+                           (exc,)) from exc
+    return '%s@%s:%s:%s' % (
+        type(exc).__name__, os.path.basename(inner.filename)[:-3], inner.name,
+        re.sub(r'\s+', '', (inner.line or ''))[:40])
 
 
 # ---------------------------------------------------------------------------
@@ -419,6 +507,7 @@ class Session:
         self.step = step
         self.zero_pulls = 0
         self.reported = set()
+        self.peek_ok = True
 
     @property
     def ctx_id(self):
@@ -453,6 +542,8 @@ class Machine:
         self.nsx_removed = False
         self.max_open = 0
         self.classes = set()
+        # traditional results; cleared whenever the repository is changed
+        self.trad_cache = {}
 
     # ---- generation ------------------------------------------------------
 
@@ -508,7 +599,8 @@ class Machine:
     def _pick(self, step):
         cands = self.open_sessions() if step['pick'] == 'open' else []
         if not cands:
-            cands = self.sessions
+            # sessions that were complete at open time have no context
+            cands = [s for s in self.sessions if s.ctx is not None]
         if not cands:
             return None
         return cands[step['s'] % len(cands)]
@@ -642,10 +734,11 @@ class Machine:
             nlost = sum(lost.values())
             if 'object-delivered-twice' in s.reported or \
                     'delivered-object-differs-from-traditional-result' in \
-                    s.reported:
+                    s.reported or 'consumed' in s.reported:
                 return      # same root cause already reported
             sig = 'eos-while-objects-remain'
-            if s.refused:
+            if s.refused and not s.peek_ok:
+                # the server's remaining count was not visible at the time
                 sig += ':after-refused-wrong-kind-pull'
             self.fail(sig, '%s session: eos after %d of %d objects (%d '
                       'pulls, %d refused wrong-kind pulls); %d lost, e.g. %r'
@@ -690,8 +783,12 @@ class Machine:
         if which == 'OpenQueryInstances':
             targs = {'QueryLanguage': a['FilterQueryLanguage'],
                      'Query': a['FilterQuery'], 'namespace': a['namespace']}
+        tkey = repr((which, sorted(targs.items(), key=lambda kv: kv[0])))
         try:
-            if which == 'OpenQueryInstances' and self.stub_query:
+            if tkey in self.trad_cache:
+                # same call, repository unchanged since: same result
+                trad = self.trad_cache[tkey]
+            elif which == 'OpenQueryInstances' and self.stub_query:
                 # the stubbed server-side ExecQuery is the traditional result
                 # (the mock's client-side plumbing of ExecQuery results is
                 # documented as untested and not part of this property)
@@ -703,6 +800,10 @@ class Machine:
                 trad = getattr(self.conn, TRADITIONAL[which])(**targs)
         except CIMError as exc:
             trad = exc
+        if not isinstance(trad, CIMError):
+            trad = [canon(o, OPTS) for o in trad] \
+                if tkey not in self.trad_cache else trad
+            self.trad_cache[tkey] = trad
         size = 0 if isinstance(trad, CIMError) else len(trad)
         moc = self._moc(a['MaxObjectCount'], size, step['u32'])
         a['MaxObjectCount'] = moc
@@ -725,16 +826,28 @@ class Machine:
                           '%r -> %s; %s returned %d objects' %
                           (step, exc, TRADITIONAL[which], size))
             return True
+        except Exception as exc:  # pylint: disable=broad-except
+            # an Open call is answered with a result or refused with a
+            # CIMError; anything else coming out of pywbem is reported under
+            # its own signature (a harness error if no pywbem frame is on
+            # the traceback) and the history goes on
+            cls.add('open:other-exception')
+            self.fail('open:leak:' + _leak_signature(exc), exc_detail(exc))
+            for cid in set(self.server_contexts) - before:
+                del self.server_contexts[cid]
+            return True
         if isinstance(trad, CIMError):
             # nothing to compare with; do not keep the session
             cls.add('open:succeeds-while-traditional-fails')
             if not result.eos:
                 self.conn.CloseEnumeration(result.context)
             return True
+        if size == 0:
+            cls.add('open:empty:' + which)
         cls.add('open:size=' + ('0' if size == 0 else '1' if size == 1 else
                                 '2-25' if size <= 25 else
                                 '26-100' if size <= 100 else '>100'))
-        s = Session(which, ns, [canon(o, OPTS) for o in trad], step)
+        s = Session(which, ns, list(trad), step)
         self.sessions.append(s)
         self._response(s, result, moc, 'open')
         if s.state == 'open':
@@ -778,6 +891,7 @@ class Machine:
             return True
         if kind != s.kind:
             cls.add('pull:wrong-kind')
+            left = self._server_remaining(s)
             try:
                 result = meth(s.ctx, moc)
             except CIMError as exc:
@@ -789,6 +903,27 @@ class Machine:
                               exc.status_code_name,
                               '%s on a %s session: %s' %
                               (PULL[kind], s.which, exc))
+                now = self._server_remaining(s)
+                if left is None or now is None:
+                    s.peek_ok = False
+                elif now != left:
+                    # (only used to name the cause at once; the loss itself
+                    # is what the eos clause sees at the end of the session)
+                    s.reported.add('consumed')
+                    self.fail('wrong-kind-pull:refused-but-consumed-objects',
+                              '%s on a %s session was refused (%s) but the '
+                              'server went from %r to %r remaining objects' %
+                              (PULL[kind], s.which, exc.status_code_name,
+                               left, now))
+                return True
+            except pywbem.Error as exc:
+                # e.g. the client rejecting the object type the server sent
+                self.fail('wrong-kind-pull:accepted',
+                          '%s on a context of %s was not refused by the '
+                          'server: %s: %s' % (PULL[kind], s.which,
+                                              type(exc).__name__, exc))
+                s.state = 'closed'
+                self.server_contexts.pop(s.ctx_id, None)
                 return True
             if s.kind == 'query' and kind == 'insts':
                 self.fail(QUERY_KIND_SIG,
@@ -800,8 +935,7 @@ class Machine:
                 s.pulls += 1
                 self._response(s, result, moc, 'pull')
                 return True
-            self.fail('wrong-kind-pull:accepted:%s-on-%s-session' %
-                      (PULL[kind], s.which),
+            self.fail('wrong-kind-pull:accepted',
                       '%s(MaxObjectCount=%r) on a context of %s returned %d '
                       'objects, eos=%r' % (PULL[kind], moc, s.which,
                                            len(_objs(result)), result.eos))
@@ -861,6 +995,13 @@ class Machine:
         s.pulls += 1
         return self._response(s, result, moc, 'pull')
 
+    def _server_remaining(self, s):
+        "number of objects the server still holds for the session, if visible"
+        try:
+            return len(self.server_contexts[s.ctx_id]['data'])
+        except (KeyError, TypeError):
+            return None
+
     def _expect_refused(self, fn, sig, s=None):
         try:
             result = fn()
@@ -915,7 +1056,7 @@ class Machine:
         if self.foreign is None:
             f = pywbem_mock.FakedWBEMConnection(default_namespace=NS)
             f.add_cimobjects(_qualdecls(), namespace=NS)
-            for c in _classes():
+            for c in _classes()[0]:
                 f.CreateClass(c, namespace=NS)
             for i in range(4):
                 f.CreateInstance(_base_inst('C14_Base', i))
@@ -956,7 +1097,8 @@ class Machine:
 
     def _do_mutate(self, step):
         what, cn = step['what'], step['cls']
-        ns = NSX if cn == 'C14_X' else NS
+        self.trad_cache = {}
+        ns = NS_OF.get(cn, NS)
         if ns == NSX and self.nsx_removed:
             self.classes.add('mutate:skipped')
             return True
@@ -1004,6 +1146,7 @@ class Machine:
             self.classes.add('remove_ns:skipped')
             return True
         conn = self.conn
+        self.trad_cache = {}
         for path in conn.EnumerateInstanceNames('C14_X', namespace=NSX):
             self._touch(path, NSX)
             conn.DeleteInstance(path)
@@ -1104,8 +1247,8 @@ class StubMachine(Machine):
 SUBCHECKS = [
     # budget: the soft time limit of the runner must not be hit (a skipped
     # example draws nothing, which Hypothesis reports as flaky generation)
-    Sub('sessions', machine=Machine, quick=(16, 150), thorough=(16, 4500),
+    Sub('sessions', machine=Machine, quick=(16, 100), thorough=(16, 3000),
         steps=(30, 60), case_timeout=120, budget=(400, 3000)),
-    Sub('query_stub', machine=StubMachine, quick=(16, 25), thorough=(16, 750),
+    Sub('query_stub', machine=StubMachine, quick=(16, 20), thorough=(16, 600),
         steps=(30, 60), case_timeout=120, budget=(400, 3000)),
 ]
